@@ -8,6 +8,7 @@ mod mockfs;
 mod pack;
 mod props;
 mod qrun;
+mod refeval;
 mod replsim;
 mod sim;
 mod tygen;
@@ -103,7 +104,15 @@ fn main() {
             };
             let ctx = Ctx { id: p.id, tier, seed, shards, strict: std::env::var("QV_STRICT").is_ok() };
             if std::env::var("QV_INNER").is_ok() || std::env::var("QV_NO_SUPERVISOR").is_ok() {
-                let code = (p.run)(&ctx);
+                // the coordinating thread also runs checked code (witnesses, corpus filters)
+                let run = p.run;
+                let code = match std::thread::Builder::new().stack_size(512 * 1024 * 1024).spawn(move || run(&ctx)).expect("spawn").join() {
+                    Ok(c) => c,
+                    Err(p) => {
+                        eprintln!("HARNESS: the check panicked: {} @ {}", panic_message(&p), last_panic_loc());
+                        2
+                    }
+                };
                 std::process::exit(code);
             }
             std::process::exit(supervise(&ctx, &args[2..]));
@@ -146,7 +155,8 @@ fn main() {
             }
         }
         "explore" => {
-            props::explore(&args[2..]);
+            let rest: Vec<String> = args[2..].to_vec();
+            let _ = std::thread::Builder::new().stack_size(1024 * 1024 * 1024).spawn(move || props::explore(&rest)).expect("spawn").join();
         }
         _ => usage(),
     }
